@@ -55,6 +55,9 @@ func newFootprintFromFont(f *font.Font, location Location, md font.Description) 
 	out.Langs = newLangsetFromCoverage(out.Runes)
 	out.Family = font.NormalizeFamily(md.Family)
 	out.Aspect = md.Aspect
+	// unspecified fields mean regular : the matching algorithm requires
+	// fully specified aspects
+	out.Aspect.SetDefaults()
 	out.Location = location
 	out.isUserProvided = true
 	return out
